@@ -1,3 +1,4 @@
+from copy import deepcopy
 import json
 from typing import IO, Any, Tuple, List
 
@@ -71,7 +72,9 @@ class AvroJSONDecoder:
         self._push()
         if isinstance(self._current, dict) and self._key is not None:
             if self._key not in self._current:
-                self._current = symbol.get_default()
+                # iterating consumes the container: never hand out the
+                # default object that belongs to the schema
+                self._current = deepcopy(symbol.get_default())
             else:
                 # self._current = self._current.pop(self._key)
                 self._current = self._current[self._key]
